@@ -50,6 +50,35 @@ def name_binding(loop):
             nm = d.get("name", {}).get("name")
             sz = d.get("size", {}).get("name")
             return nm, sz
+    # `let (name, s) = (header.name, header.size)` / `let name = header.name; let s = header.size;`
+    nm = sz = None
+
+    def hdr_field(e):
+        e = hirq.strip_wrappers(e)
+        while e.get("k") == "cast":
+            e = hirq.strip_wrappers(e["e"])
+        if e.get("k") == "field" and e["name"] in ("name", "size") and "BoxHeader" in str(hirq.strip_wrappers(e["e"]).get("ty") or ""):
+            return e["name"]
+        return None
+    for m, _ in hirq.walk(loop["body"]):
+        if m.get("k") != "let" or "init" not in m:
+            continue
+        pairs = []
+        if m["pat"].get("k") == "bind":
+            pairs = [(m["pat"], m["init"])]
+        elif m["pat"].get("k") == "tuple" and m["init"].get("k") == "tup":
+            subs = m["pat"].get("subs") or []
+            es = m["init"].get("es") or []
+            if len(subs) == len(es):
+                pairs = [(p_, e_) for p_, e_ in zip(subs, es) if p_.get("k") == "bind"]
+        for p_, e_ in pairs:
+            f = hdr_field(e_)
+            if f == "name":
+                nm = nm or p_["name"]
+            elif f == "size":
+                sz = sz or p_["name"]
+    if nm is not None:
+        return nm, sz
     return None, None
 
 
